@@ -21,6 +21,7 @@ EXTENDS Extract, Json
 CONSTANTS MinN, MaxN,      \* number of nodes
           MinG, MaxG,      \* number of graphs (root + nested bodies)
           MaxDepth,        \* nesting depth of a body (1 = bodies of root nodes only)
+          MinDepth,        \* at least one body is nested this deep (0 = no requirement)
           MaxIn,           \* inputs per node
           MaxOut,          \* outputs per node
           MaxExtraOut,     \* total number of second outputs in an instance
@@ -28,6 +29,8 @@ CONSTANTS MinN, MaxN,      \* number of nodes
           LeafChoices,     \* set of leaf-kind sequences of the root graph
           Kinds,           \* graph-like kinds given to the algorithm: "graph" (= view), "function"
           MaxOutsCard,     \* size of the output set of a cut
+          Growing,         \* TRUE: enumerate only shapes whose graphs are numbered in order of first appearance
+                           \* (one representative per renumbering; makes deep nestings affordable)
           EmitOn
 
 VARIABLES inst, k, aux, cut, exp, res
@@ -59,12 +62,20 @@ ShapeOK(I) ==
      /\ \A g \in 2..ng : NodesOf(I, g) # {}
      /\ \A g \in 2..(ng - 1) : I.owner[g] <= I.owner[g + 1]
      /\ \A g \in 2..ng : Cardinality(Anc(I, g)) <= MaxDepth
+     /\ (MinDepth > 0 => \E g \in 2..ng : Cardinality(Anc(I, g)) >= MinDepth)
      /\ PreNodes(I, NodeSeq(I, Root)) = [i \in 1..n |-> i]
      /\ SumExtra(I, n) <= MaxExtraOut
 
+MaxUpTo(f, i) == CHOOSE m \in {f[j] : j \in 1..i} : \A j \in 1..i : f[j] <= m
+GOfCands(n, ng) ==
+  IF Growing THEN {f \in [1..n -> 1..ng] : f[1] = 1 /\ \A i \in 1..(n - 1) : f[i + 1] <= MaxUpTo(f, i) + 1}
+  ELSE [1..n -> 1..ng]
+OwnerCands(n, ng) ==
+  IF Growing THEN {o \in [1..ng -> 0..n] : o[1] = 0 /\ \A g \in 2..ng : o[g] >= 1 /\ (g < ng => o[g] <= o[g + 1])}
+  ELSE [1..ng -> 0..n]
 ShapesN(n, ng) ==
   {I \in {[gOf |-> gOf, owner |-> owner, nout |-> nout, ins |-> [i \in 1..n |-> <<>>], leaf |-> l] :
-            gOf \in [1..n -> 1..ng], owner \in [1..ng -> 0..n], nout \in [1..n -> 1..MaxOut], l \in LeafChoices}
+            gOf \in GOfCands(n, ng), owner \in OwnerCands(n, ng), nout \in [1..n -> 1..MaxOut], l \in LeafChoices}
      : ShapeOK(I)}
 Shapes == UNION {ShapesN(n, ng) : n \in MinN..MaxN, ng \in MinG..MaxG}
 
